@@ -495,10 +495,16 @@ class SymCtx:
         self.labels = []
         self.probe_depth = probe_depth
         self.notes = {}
+        self.hints = {}
 
     # -- inputs
-    def real(self, name, nan=False):
+    def real(self, name, nan=False, hint=None):
         v = z3.Real(name)
+        if hint is not None:
+            self.hints[name] = (v, hint)
+        if isinstance(nan, SymBool):          # NaN flag shared with other inputs
+            self.inputs[name] = ('real', v)
+            return SymReal(v, nan.z)
         if nan:
             n = z3.Bool(name + '?nan')
             self.inputs[name] = ('realnan', (v, n))
@@ -598,12 +604,18 @@ class SymCtx:
                 reals.append(v[0])
             elif kind == 'int':
                 ints.append(v)
-        for denom, bound in ((1, 50), (8, 200), (None, None)):
+        levels = ((1, 50), (8, 200), (None, None))
+        if self.hints:
+            levels = (('hint', None),) + levels
+        for denom, bound in levels:
             s.push()
             try:
                 if extra is not None:
                     s.add(extra)
-                if denom is not None:
+                if denom == 'hint':
+                    for name, (v, h) in self.hints.items():
+                        s.add(v == _z3num(h))
+                elif denom is not None:
                     for r in reals:
                         s.add(z3.IsInt(r * denom), r >= -bound, r <= bound)
                     for r in ints:
@@ -673,8 +685,10 @@ class ConCtx:
         self.notes = {}
         self.stats = Stats()
 
-    def real(self, name, nan=False):
-        return to_float(self.values[name])
+    def real(self, name, nan=False, hint=None):
+        if nan is True or nan is False:      # own flag ('nan' is stored as the value) or none
+            return to_float(self.values[name])
+        return float('nan') if bool(nan) else to_float(self.values[name])   # shared flag
 
     def int(self, name, lo=None, hi=None):
         return int(self.values[name])
